@@ -61,4 +61,35 @@ theorem sumOver_nonneg (l : List α) (f : α → Int) (h : ∀ k ∈ l, 0 ≤ f 
     have := ih (fun k hk => h k (List.mem_cons_of_mem _ hk))
     omega
 
+
+/-- add an id to a duplicate-free log unless it is there already -/
+def touch (l : List α) (k : α) : List α := if k ∈ l then l else k :: l
+
+theorem touch_nodup (l : List α) (k : α) (h : l.Nodup) : (touch l k).Nodup := by
+  unfold touch
+  split
+  · exact h
+  · rename_i hk; exact List.nodup_cons.mpr ⟨hk, h⟩
+
+theorem mem_touch (l : List α) (k x : α) : x ∈ touch l k ↔ x = k ∨ x ∈ l := by
+  unfold touch
+  split
+  · rename_i hk
+    constructor
+    · intro h; exact Or.inr h
+    · rintro (h | h)
+      · subst h; exact hk
+      · exact h
+  · simp
+
+/-- only entry `id` changed, and `id` is (now) in the log -/
+theorem sumOver_touch_change (l : List α) (f g : α → Int) (id : α)
+    (h : ∀ k, k ≠ id → f k = g k) (hn : l.Nodup) (hz : id ∉ l → f id = 0) :
+    sumOver (touch l id) g = sumOver l f - f id + g id := by
+  unfold touch
+  by_cases hk : id ∈ l
+  · simp only [hk, if_true]; exact sumOver_change l f g id h hn hk
+  · simp only [hk, if_false]
+    rw [sumOver_new l f g id h hk, hz hk]; omega
+
 end Foundation
